@@ -2,8 +2,8 @@
 from harness._compute import search_with, sym_correspondence
 
 PROPERTY = "C09"
-LEAN_TARGETS = ['VectorModel.Props.C09', 'VectorModel.Refine.LorentzSigned', 'VectorModel.Refine.LorentzSigned2', 'VectorModel.Props.MethodLorentz']
-THEOREM_FILES = ['VectorModel/Props/C09.lean', 'VectorModel/Refine/LorentzSigned.lean', 'VectorModel/Refine/LorentzSigned2.lean', 'VectorModel/Props/MethodLorentz.lean']
+LEAN_TARGETS = ['VectorModel.Props.C09', 'VectorModel.Refine.LorentzSigned', 'VectorModel.Refine.LorentzSigned2', 'VectorModel.Props.MethodLorentz', 'VectorModel.Props.C09Comm']
+THEOREM_FILES = ['VectorModel/Props/C09.lean', 'VectorModel/Refine/LorentzSigned.lean', 'VectorModel/Refine/LorentzSigned2.lean', 'VectorModel/Props/MethodLorentz.lean', 'VectorModel/Props/C09Comm.lean']
 NOT_COVERED = ['float64 rounding']
 ALWAYS_SEARCH = True          # the law sweep on the real code is cheap: run it in every tier (exploration, not proof)
 search = search_with("c09")
